@@ -14,10 +14,13 @@ def Act.notServicing : Act → Bool
   | .servicingTrip _ _ _ => false
   | _ => true
 
+/-- the route of a planned activity is an answer of the router -/
+def Act.wellRouted (env : Env) (a : Act) : Prop := ∀ r, a.route? = some r → ∃ p q, r = env.route p q
+
 /-- the activities a transition can be asked to enter: anything an instruction can name, or the
     default terminal state of the current activity -/
 def Plannable (env : Env) (s : Sim) (v : VehicleId) (prev next : Act) : Prop :=
-  next.notServicing = true ∨ defaultNext env s v prev = .ok next
+  (next.notServicing = true ∧ next.wellRouted env) ∨ defaultNext env s v prev = .ok next
 
 /-- a state predicate preserved by honest transitions and by default updates -/
 structure StepInv (env : Env) (I : Sim → Prop) : Prop where
@@ -30,15 +33,21 @@ structure StepInv (env : Env) (I : Sim → Prop) : Prop where
     defaultUpdate env w v veh.act = .ok w2 → I w2.sim
 
 /-- the plans are for pairwise distinct vehicles and `prev` is each vehicle's real activity -/
-def Honest (s : Sim) (ps : List (VehicleId × Act × Act)) : Prop :=
-  (ps.map (·.1)).Nodup ∧ ∀ p ∈ ps, (∃ veh, s.vehicle? p.1 = some veh ∧ veh.act = p.2.1) ∧ p.2.2.notServicing = true
+def Honest (env : Env) (s : Sim) (ps : List (VehicleId × Act × Act)) : Prop :=
+  (ps.map (·.1)).Nodup ∧ ∀ p ∈ ps, (∃ veh, s.vehicle? p.1 = some veh ∧ veh.act = p.2.1) ∧
+    (p.2.2.notServicing = true ∧ p.2.2.wellRouted env)
 
 theorem wf_applied {s : Sim} (a : List (VehicleId × Instr)) (h : s.WF) : ({ s with applied := a } : Sim).WF :=
   ⟨h.veh, h.stn, h.base, h.req, h.plugs⟩
 
 theorem planInstr_spec {s : Sim} {i : Instr} {v : VehicleId} {prev next : Act}
     (h : planInstr env s i = some (.ok (v, prev, next))) :
-    v = i.vehicle ∧ (∃ veh, s.vehicle? v = some veh ∧ veh.act = prev) ∧ next.notServicing = true := by
+    v = i.vehicle ∧ (∃ veh, s.vehicle? v = some veh ∧ veh.act = prev) ∧
+      (next.notServicing = true ∧ next.wellRouted env) := by
+  have wr0 : ∀ a : Act, a.route? = none → a.wellRouted env := by
+    intro a ha r hr; rw [ha] at hr; cases hr
+  have wr1 : ∀ (a : Act) p q, a.route? = some (env.route p q) → a.wellRouted env := by
+    intro a p q ha r hr; rw [ha] at hr; cases hr; exact ⟨p, q, rfl⟩
   cases i <;> simp only [planInstr] at h
   case idle v' | chargeStation v' _ _ | chargeBase v' _ _ | reserveBase v' _ | outOfService v' =>
     cases hv : s.vehicle? v' with
@@ -46,7 +55,7 @@ theorem planInstr_spec {s : Sim} {i : Instr} {v : VehicleId} {prev next : Act}
     | some veh =>
       simp [hv] at h
       obtain ⟨rfl, rfl, rfl⟩ := h
-      exact ⟨rfl, ⟨veh, hv, rfl⟩, rfl⟩
+      exact ⟨rfl, ⟨veh, hv, rfl⟩, rfl, wr0 _ rfl⟩
   case dispatchPooling v' =>
     cases hv : s.vehicle? v' <;> simp [hv] at h
   case dispatchTrip v' r =>
@@ -58,7 +67,7 @@ theorem planInstr_spec {s : Sim} {i : Instr} {v : VehicleId} {prev next : Act}
       | some req =>
         simp [hv, hr] at h
         obtain ⟨rfl, rfl, rfl⟩ := h
-        exact ⟨rfl, ⟨veh, hv, rfl⟩, rfl⟩
+        exact ⟨rfl, ⟨veh, hv, rfl⟩, rfl, wr1 _ _ _ rfl⟩
   case dispatchStation v' sid c =>
     cases hv : s.vehicle? v' with
     | none => simp [hv] at h
@@ -68,7 +77,7 @@ theorem planInstr_spec {s : Sim} {i : Instr} {v : VehicleId} {prev next : Act}
       | some st =>
         simp [hv, hr] at h
         obtain ⟨rfl, rfl, rfl⟩ := h
-        exact ⟨rfl, ⟨veh, hv, rfl⟩, rfl⟩
+        exact ⟨rfl, ⟨veh, hv, rfl⟩, rfl, wr1 _ _ _ rfl⟩
   case dispatchBase v' b =>
     cases hv : s.vehicle? v' with
     | none => simp [hv] at h
@@ -78,7 +87,7 @@ theorem planInstr_spec {s : Sim} {i : Instr} {v : VehicleId} {prev next : Act}
       | some base =>
         simp [hv, hr] at h
         obtain ⟨rfl, rfl, rfl⟩ := h
-        exact ⟨rfl, ⟨veh, hv, rfl⟩, rfl⟩
+        exact ⟨rfl, ⟨veh, hv, rfl⟩, rfl, wr1 _ _ _ rfl⟩
   case reposition v' l =>
     cases hv : s.vehicle? v' with
     | none => simp [hv] at h
@@ -93,14 +102,15 @@ theorem planInstr_spec {s : Sim} {i : Instr} {v : VehicleId} {prev next : Act}
         | some dst =>
           simp [hl] at h
           obtain ⟨rfl, rfl, rfl⟩ := h
-          exact ⟨rfl, ⟨veh, hv, rfl⟩, rfl⟩
+          exact ⟨rfl, ⟨veh, hv, rfl⟩, rfl, wr1 _ _ _ rfl⟩
 
 /-- what pass 1 returns: the state with a new `applied` field and honest plans -/
 theorem planAll_spec {s s' : Sim} {is : List Instr} {ps : List (VehicleId × Act × Act)}
     (hn : (is.map Instr.vehicle).Nodup) (h : planAll env s is = some (s', ps)) :
     (∃ a, s' = { s with applied := a }) ∧
     (ps.map (·.1)).Sublist (is.map Instr.vehicle) ∧
-    ∀ p ∈ ps, (∃ veh, s.vehicle? p.1 = some veh ∧ veh.act = p.2.1) ∧ p.2.2.notServicing = true := by
+    ∀ p ∈ ps, (∃ veh, s.vehicle? p.1 = some veh ∧ veh.act = p.2.1) ∧
+      (p.2.2.notServicing = true ∧ p.2.2.wellRouted env) := by
   induction is generalizing s s' ps with
   | nil =>
     simp only [planAll] at h
@@ -132,7 +142,7 @@ theorem planAll_spec {s s' : Sim} {is : List Instr} {ps : List (VehicleId × Act
       exact ⟨ha, List.Sublist.cons _ hsub, hhon⟩
 
 theorem applyPlans_inv {I : Sim → Prop} (hI : StepInv env I) {ps : List (VehicleId × Act × Act)} :
-    ∀ {w : World}, w.sim.WF → I w.sim → Honest w.sim ps →
+    ∀ {w : World}, w.sim.WF → I w.sim → Honest env w.sim ps →
       I (applyPlans env w ps).sim ∧ (applyPlans env w ps).sim.WF ∧ SameIds w.sim (applyPlans env w ps).sim := by
   induction ps with
   | nil => intro w hwf hi _; exact ⟨hi, hwf, SameIds.refl _⟩
@@ -142,7 +152,8 @@ theorem applyPlans_inv {I : Sim → Prop} (hI : StepInv env I) {ps : List (Vehic
     simp only [applyPlans]
     obtain ⟨hnd, hall⟩ := hh
     simp only [List.map_cons, List.nodup_cons] at hnd
-    have hrest : ∀ q ∈ ps, (∃ veh, w.sim.vehicle? q.1 = some veh ∧ veh.act = q.2.1) ∧ q.2.2.notServicing = true :=
+    have hrest : ∀ q ∈ ps, (∃ veh, w.sim.vehicle? q.1 = some veh ∧ veh.act = q.2.1) ∧
+        (q.2.2.notServicing = true ∧ q.2.2.wellRouted env) :=
       fun q hq => hall q (List.mem_cons_of_mem _ hq)
     split
     · next w' htr =>
@@ -152,7 +163,7 @@ theorem applyPlans_inv {I : Sim → Prop} (hI : StepInv env I) {ps : List (Vehic
       have hi' := hI.transition hwf hi hveh (Or.inl hns) htr
       have hid := transition_sameIds hwf htr
       have hfr := transition_frame hwf htr
-      have hh' : Honest w'.sim ps := by
+      have hh' : Honest env w'.sim ps := by
         refine ⟨hnd.2, ?_⟩
         intro q hq
         obtain ⟨⟨vq, h1, h2⟩, h3⟩ := hrest q hq
@@ -176,7 +187,7 @@ theorem applyInstructions_inv {I : Sim → Prop} (hI : StepInv env I) {w w' : Wo
   · next s1 ps hplan =>
     cases h
     obtain ⟨⟨a, rfl⟩, hsub, hhon⟩ := planAll_spec hn hplan
-    have hh : Honest ({ w with sim := { w.sim with applied := a } } : World).sim ps :=
+    have hh : Honest env ({ w with sim := { w.sim with applied := a } } : World).sim ps :=
       ⟨List.Nodup.sublist hsub hn, fun p hp => by
         obtain ⟨⟨veh, h1, h2⟩, h3⟩ := hhon p hp
         exact ⟨⟨veh, by simpa [Sim.vehicle?] using h1, h2⟩, h3⟩⟩
